@@ -172,14 +172,21 @@ class _Dist:
 
 @contextlib.contextmanager
 def scripted(script):
+  """NumPy's global draws and the two SciPy laws the domain module names are replaced by the script.  A module that no longer names `truncnorm` / `beta`
+  (a rewrite that samples the priors another way) is run with whatever it does name: the script's log then differs from the model's (a broken
+  correspondence, not a crash of the harness) and the searcher still looks at what the endpoint returns - supports, bounds, finiteness."""
   import libsigopt.compute.domain as D
-  saved = (numpy.random.choice, numpy.random.randint, numpy.random.uniform, D.truncnorm, D.beta)
+  saved = (numpy.random.choice, numpy.random.randint, numpy.random.uniform)
+  named = {n: getattr(D, n) for n in ("truncnorm", "beta") if hasattr(D, n)}
   try:
     numpy.random.choice, numpy.random.randint, numpy.random.uniform = script.choice, script.randint, script.uniform
-    D.truncnorm, D.beta = _Dist(script, "truncnorm"), _Dist(script, "beta")
+    for n in named:
+      setattr(D, n, _Dist(script, n))
     yield script
   finally:
-    numpy.random.choice, numpy.random.randint, numpy.random.uniform, D.truncnorm, D.beta = saved
+    numpy.random.choice, numpy.random.randint, numpy.random.uniform = saved
+    for n, v in named.items():
+      setattr(D, n, v)
 
 
 # ------------------------------------------------------------------------------------------ implementation runner
